@@ -302,13 +302,13 @@ pub fn run_case(c: &Case, st: &mut Stats) -> Option<(String, String)> {
 }
 
 fn work_list(thorough: bool) -> Vec<Case> {
-    let wls: Vec<usize> = if thorough { (0..workloads().len()).collect() } else { vec![0, 1, 3, 4, 5] };
+    let wls: Vec<usize> = if thorough { (0..workloads().len()).collect() } else { vec![0, 1, 3, 4, 5, 6] };
     let cfgs: Vec<WlConfig> = if thorough { configs() } else { configs().into_iter().take(2).collect() };
     let mut out = vec![];
     for &wl in &wls {
         for (ci, cfg) in cfgs.iter().enumerate() {
             // quick: the workload that rolls back and restarts by itself runs with the first configuration only
-            if !thorough && wl == 4 && ci > 0 {
+            if !thorough && (wl == 4 || wl == 6) && ci > 0 {
                 continue;
             }
             let log = fault_free_log(wl, cfg, false);
@@ -457,7 +457,7 @@ pub fn run(ctx: &Ctx) -> Report {
     st.merge(p.st);
     rep.set("exhaustive", o.complete && o.completed as usize == work.len() && pcomplete);
     rep.set("cases", work.len() as u64);
-    rep.set("rule", "for every workload (quick: add+commit, add+delete+commit, reload, rollback+restart, deletes+collection; thorough: + merge+collection) x writer configuration (1-2 workers, dedicated compressor thread on/off) x every storage operation of the fault-free log, identified by (logical thread, index among that thread's operations) - create, write, flush, terminate, atomic write, atomic read, open, exists, delete, directory sync, lock - failing once or permanently from there on (and, with reads through file handles made storage operations, every read of the merge thread of the merge + collection workload; thorough: every read of every thread) x three continuation policies after the first reported error (rollback, new writer, keep using the writer): no panic / abort / hang; every commit that returns Ok is complete, readable and checksum-clean in a fresh open; after any reported error the storage holds the last Ok commit or a failed commit's complete state; finally a new writer adds, commits and collects and the directory holds exactly the committed files; a reload that returns Ok hands out a searcher that shows a whole commit and can be queried. Two-deviation family: a merge of two committed segments is preempted at 2 (thorough 5) positions of its merge thread by {delete + commit; two delete commits; deleting a whole source + commit}, and afterwards every storage operation of the updater that reconciles and publishes the merge fails once: the published documents stay those of the last commit. Non-trivial: cases whose fault fired; distinct by construction");
+    rep.set("rule", "for every workload (quick: add+commit, add+delete+commit, reload, rollback+restart, deletes+collection, re-opening through open_or_create; thorough: + merge+collection) x writer configuration (1-2 workers, dedicated compressor thread on/off) x every storage operation of the fault-free log, identified by (logical thread, index among that thread's operations) - create, write, flush, terminate, atomic write, atomic read, open, exists, delete, directory sync, lock - failing once or permanently from there on (and, with reads through file handles made storage operations, every read of the merge thread of the merge + collection workload; thorough: every read of every thread) x three continuation policies after the first reported error (rollback, new writer, keep using the writer): no panic / abort / hang; every commit that returns Ok is complete, readable and checksum-clean in a fresh open; after any reported error the storage holds the last Ok commit or a failed commit's complete state; finally a new writer adds, commits and collects and the directory holds exactly the committed files; a reload that returns Ok hands out a searcher that shows a whole commit and can be queried. Two-deviation family: a merge of two committed segments is preempted at 2 (thorough 5) positions of its merge thread by {delete + commit; two delete commits; deleting a whole source + commit}, and afterwards every storage operation of the updater that reconciles and publishes the merge fails once: the published documents stay those of the last commit. Non-trivial: cases whose fault fired; distinct by construction");
     let fired = st.counters.get("faults_fired").copied().unwrap_or(0);
     for k in ["faults_fired", "api_errors", "commits_ok", "kind.create", "kind.write", "kind.terminate", "kind.atomic_write", "kind.sync_dir", "kind.delete", "kind.open_read"] {
         if st.counters.get(k).copied().unwrap_or(0) == 0 {
